@@ -6,6 +6,7 @@ import (
 	"net/netip"
 	"net/url"
 	"os"
+	"regexp"
 	"strconv"
 	"strings"
 
@@ -223,8 +224,18 @@ func specRoute(fc *reqmodel.FullCfg, hostname string, t *target) specHop {
 	if rc.Base == "" || rc.Base == "none" {
 		return specHop{Kind: "direct"}
 	}
-	if rc.DirectSet && reqmodel.MatchSpec(rc.Direct, hostname) {
+	if rc.DirectSet && rc.DirectRaw == nil && reqmodel.MatchSpec(rc.Direct, hostname) {
 		return specHop{Kind: "direct"}
+	}
+	if rc.DirectSet && rc.DirectRaw != nil {
+		// a real rule list: ONE regexp per rule, includes minus excludes
+		m, err := reqmodel.MatchSpecRaw(rc.DirectRaw, hostname)
+		if err != nil {
+			return specHop{Kind: "skip", Why: "a direct-domains rule is not a regular expression"}
+		}
+		if m {
+			return specHop{Kind: "direct"}
+		}
 	}
 	if rc.LocalhostDirect && isLocalhostSpec(fc.Base.LocalNames, hostname) {
 		return specHop{Kind: "direct"}
@@ -445,6 +456,25 @@ func evaluate(ctx *core.Ctx, h *hops, fc *reqmodel.FullCfg, one oneTarget, t *ta
 	if fc.Route.DirectSet {
 		ctx.Count("direct-domains-set")
 	}
+	if vals := fc.Route.DirectRaw; fc.Route.DirectSet && vals != nil {
+		ctx.Count("direct-domains/real-list")
+		ctx.Count(fmt.Sprintf("direct-domains/real-list/rules=%d", min(len(vals), 6)))
+		ctx.Count("direct-domains/real-list/base=" + fc.Route.Base + "/" + t.Kind)
+		alone, _ := reqmodel.MatchSpecRaw(vals, hn)
+		ctx.Count(fmt.Sprintf("direct-domains/real-list/verdict=%v", alone))
+		hit := false
+		for _, v := range vals {
+			if one1, _ := reqmodel.MatchSpecRaw([]string{strings.TrimPrefix(v, "-")}, hn); one1 {
+				hit = true
+			}
+		}
+		if hit {
+			ctx.Count("direct-domains/real-list/some-rule-matches-the-host")
+		}
+		if j, ok := joinedVerdict(vals, hn); ok && j != alone {
+			ctx.Count("direct-domains/real-list/verdict-needs-every-rule-on-its-own")
+		}
+	}
 	impl := ob.String()
 	if ob.Err != "" {
 		ctx.Disagree("every request is answered", one, impl, rt.Kind)
@@ -578,6 +608,33 @@ func evaluate(ctx *core.Ctx, h *hops, fc *reqmodel.FullCfg, one oneTarget, t *ta
 			}
 		}
 	}
+}
+
+// joinedVerdict: what the list would answer if the rules of each sub-list were one alternation (histogram
+// label only: how many requests tell the two readings apart).
+func joinedVerdict(vals []string, s string) (bool, bool) {
+	var inc, exc []string
+	for _, v := range vals {
+		if src, excl := strings.CutPrefix(v, "-"); excl {
+			exc = append(exc, src)
+		} else {
+			inc = append(inc, src)
+		}
+	}
+	ri, err := regexp.Compile(strings.Join(inc, "|"))
+	if err != nil || len(inc) == 0 {
+		return false, false
+	}
+	if len(exc) > 0 {
+		re, err := regexp.Compile(strings.Join(exc, "|"))
+		if err != nil {
+			return false, false
+		}
+		if re.MatchString(s) {
+			return false, true
+		}
+	}
+	return ri.MatchString(s), true
 }
 
 func withDefaultPort(authority, port string) string {
